@@ -48,6 +48,9 @@ COMMIT_RAW_MODES = {"defaults", "navigate+hyperlinks", "hyperlinks+commit-format
                     "sbs-unlimited-wrap"}   # commit-style raw
 
 
+STAT_LIKE = __import__("re").compile(rb"^ [^ |][^|]*\| +[0-9]+ ")
+
+
 def rainbow(r2, n):
     """n visible characters, each in its own colour: long in bytes, short on screen."""
     return "".join(f"\x1b[38;5;{r2.randrange(16, 232)}m{r2.choice('abcdefgh xyz')}\x1b[0m" for _ in range(n))
@@ -92,7 +95,10 @@ def run(tier):
     def indented_payload(k, c):
         if c != "other":
             return gitskin.default_payload(k, c)
-        return ["    \x1b[1mindented\x1b[m text tokZ%dZ" % k, "  \x1b[32m+\x1b[m not a stat line", " leading \x1b[33mspace\x1b[m"][k % 3]
+        # (an indented line that merely contains "| 12 ..." is not a diffstat line: its path does not start right after
+        # the single leading space)
+        return ["    \x1b[1mindented\x1b[m text tokZ%dZ" % k, "  \x1b[32m+\x1b[m not a stat line", " leading \x1b[33mspace\x1b[m",
+                "    bench/runZ%dZ.rs | 12 ms faster" % k, "  two/spaces.rs | 3 ++-", "\tsub/tab.rs | 1 +", "x | 2 +-"][k % 7]
     plans.append(stream.Plan("rs+relative/indented", rnd.sample(withtext, min(600, len(withtext))), ["--relative-paths"], None,
                              indented_payload, skin={"other_payload": True}, env={"GIT_PREFIX": "sub/"}))
     mstat = tlc.run_tlc("MC_Stream", cfg="MC_Stream_stat", workers=8, coverage=False, heap="8g", timeout=1800)
@@ -143,7 +149,7 @@ def run(tier):
     intern = gitskin.Interner()
     jobs = [(i, t, m) for i, t in enumerate(texts) for m in (TEXT_MODES if i % 3 == 0 else rnd.sample(list(TEXT_MODES), 3))
             # (with relative paths requested, " path | 3 ++" lines are diffstat lines, a construct)
-            if not (m == "relative-paths+tabs2" and any(b"|" in b for b in t))
+            if not (m == "relative-paths+tabs2" and any(STAT_LIKE.match(lexer.strip_ansi(b)) for b in t))
             # (a line wider than a lowered --max-line-length is truncated: not under test here)
             and not (m == "maxlen60" and any(len(lexer.strip_ansi(b).decode("utf-8", "replace")) > 50 for b in t))
             # (a commit line is a construct: it stays as it is only where commit-style is raw)
